@@ -2713,7 +2713,11 @@ def case_absorption(c, rng, idx, K):
                 return c
             dur = ev(dose.duration, st)
             if not close(dur, 2 * mat, 1e-9):
-                c.violate(None, f"{c.sample['call']}: zero-order input duration {_f(dur)} is not 2*MAT (MAT = {_f(mat)})")
+                key = None
+                if "MDT" in st and close(dur, 2 * st["MDT"], 1e-9) and "MDT" in assigned_names(M) and "MAT" in assigned_names(M):
+                    # the start model had sequential zero/first-order absorption (duration 2*MDT, rate 1/MAT)
+                    key = "C09/zero-order-after-seq-absorption-keeps-mdt-duration-mat-unused"
+                c.violate(key, f"{c.sample['call']}: zero-order input duration {_f(dur)} is not 2*MAT (MAT = {_f(mat)})")
                 return c
         if which == "SEQ":
             if not isinstance(dose, Infusion) or dose.duration is None:
